@@ -102,12 +102,14 @@ pub struct Machine<V: VringT<dmn::Mem> + Clone + Send + Sync + 'static> {
     /// eventfds of stopped rings the "frontend" keeps open until the end of the history
     kept_open: Vec<EventFd>,
     two_workers: bool,
+    /// SET_FEATURES without PROTOCOL_FEATURES carries the empty feature word (else two device bits)
+    zero_sf: bool,
 }
 
 const FEATS: u64 = 0x1_0000_0003;
 
 impl<V: VringT<dmn::Mem> + Clone + Send + Sync + 'static> Machine<V> {
-    pub fn new(two_workers: bool) -> Option<Self> {
+    pub fn new(two_workers: bool, zero_sf: bool) -> Option<Self> {
         let masks = if two_workers { vec![0b01, 0b10] } else { vec![0b11] };
         let bc = BCfg { num_queues: 2, masks, ..BCfg::default() };
         let mut s: Sess<V> = Sess::new(bc);
@@ -117,7 +119,7 @@ impl<V: VringT<dmn::Mem> + Clone + Send + Sync + 'static> Machine<V> {
             report::inconclusive(&format!("negotiate: {e}"));
             return None;
         }
-        Some(Machine { s, fe, rings: vec![Ring::default(), Ring::default()], acked_pf: true, trace: Vec::new(), kept_open: Vec::new(), two_workers })
+        Some(Machine { s, fe, rings: vec![Ring::default(), Ring::default()], acked_pf: true, trace: Vec::new(), kept_open: Vec::new(), two_workers, zero_sf })
     }
 
     fn owner(&self, r: usize) -> (usize, u16) {
@@ -136,7 +138,6 @@ impl<V: VringT<dmn::Mem> + Clone + Send + Sync + 'static> Machine<V> {
     /// Is the op meaningful in the current negotiation state (would the protocol allow it)?
     pub fn applicable(&self, op: &Op) -> bool {
         match op {
-            Op::Enable(..) => self.acked_pf,
             Op::Guest(r) => self.rings[*r].kick.is_some() || self.rings[*r].stale.is_some(),
             _ => true,
         }
@@ -148,7 +149,7 @@ impl<V: VringT<dmn::Mem> + Clone + Send + Sync + 'static> Machine<V> {
         let e = |r: vhost::Result<()>| r.map_err(|e| format!("{e:?}"));
         match *op {
             Op::Sf(pf) => {
-                e(self.fe.set_features(if pf { dmn::NEG_FEATURES_PF | FEATS } else { FEATS }))?;
+                e(self.fe.set_features(if pf { dmn::NEG_FEATURES_PF | FEATS } else if self.zero_sf { 0 } else { FEATS }))?;
                 self.acked_pf = pf;
                 if !pf {
                     for r in 0..2 {
@@ -190,6 +191,29 @@ impl<V: VringT<dmn::Mem> + Clone + Send + Sync + 'static> Machine<V> {
             Op::Call(r) => {
                 let fd = EventFd::new(libc::EFD_NONBLOCK).map_err(|e| e.to_string())?;
                 e(self.fe.set_vring_call(r, &fd))?;
+            }
+            Op::Enable(r, en) if !self.acked_pf => {
+                // not allowed by the protocol now: the daemon refuses it and ends the connection; a refused
+                // message changes nothing, and the rings keep their state for the next connection
+                // (written raw: the library's frontend would refuse to send it)
+                let fd = self.fe.as_raw_fd();
+                sys::send_all(fd, &spec::msg(spec::fe::SET_VRING_ENABLE, spec::F_VERSION1 | spec::F_NEED_REPLY, &spec::p_vring_state(r as u32, en as u32)), &[]).map_err(|e| e.to_string())?;
+                let m = spec::read_msg(fd, 10_000, 64);
+                match m.complete() && m.body == spec::p_u64(0) {
+                    true => self.set_enabled(r, en), // accepted after all (not this property's business)
+                    false => {
+                        // refused: a failure acknowledgement and / or end-of-stream
+                        unsafe { libc::shutdown(fd, libc::SHUT_RDWR) };
+                        report::count("refused_enable_then_reconnect", 1);
+                        let _ = self.s.daemon.wait();
+                        let mut fe2 = self.s.connect(2);
+                        let pf = self.s.be.cfg.protocol_features | spec::PF_REPLY_ACK;
+                        dmn::negotiate(&mut fe2, dmn::NEG_FEATURES_PF | FEATS, pf).map_err(|e| format!("negotiation on the new connection: {e}"))?;
+                        self.fe = fe2;
+                        self.acked_pf = true;
+                        self.trace.push("(refused; reconnected, SET_FEATURES(+PF))".into());
+                    }
+                }
             }
             Op::Enable(r, en) => {
                 e(self.fe.set_vring_enable(r, en))?;
@@ -330,8 +354,8 @@ impl<V: VringT<dmn::Mem> + Clone + Send + Sync + 'static> Machine<V> {
     }
 }
 
-pub fn run_history<V: VringT<dmn::Mem> + Clone + Send + Sync + 'static>(cfg: &Cfg, hist: &[Op], two_workers: bool, case: &str) {
-    let Some(mut m) = Machine::<V>::new(two_workers) else { return };
+pub fn run_history<V: VringT<dmn::Mem> + Clone + Send + Sync + 'static>(cfg: &Cfg, hist: &[Op], two_workers: bool, zero_sf: bool, case: &str) {
+    let Some(mut m) = Machine::<V>::new(two_workers, zero_sf) else { return };
     let mut applied = Vec::new();
     for op in hist {
         if !m.applicable(op) {
@@ -354,7 +378,7 @@ pub fn run_history<V: VringT<dmn::Mem> + Clone + Send + Sync + 'static>(cfg: &Cf
     report::eval(1);
     report::count("histories", 1);
     report::count("steps", applied.len() as u64);
-    report::distinct_str(&format!("{two_workers}:{}:{}", std::any::type_name::<V>().len(), applied.join(",")));
+    report::distinct_str(&format!("{two_workers}:{zero_sf}:{}:{}", std::any::type_name::<V>().len(), applied.join(",")));
     if applied.len() >= 3 {
         report::sample(&format!("len{}w{}", applied.len().min(6), two_workers as u8), jo! {"history" => applied, "final_model" => m.model_j(), "dispatch_events" => m.s.queue_events().len()});
     }
@@ -363,11 +387,12 @@ pub fn run_history<V: VringT<dmn::Mem> + Clone + Send + Sync + 'static>(cfg: &Cf
 }
 
 fn dispatch_history(cfg: &Cfg, hist: &[Op], variant: u64, case: &str) {
+    let z = (variant >> 2) & 1 == 1;
     match variant % 4 {
-        0 => run_history::<VringMutex<dmn::Mem>>(cfg, hist, false, case),
-        1 => run_history::<VringRwLock<dmn::Mem>>(cfg, hist, false, case),
-        2 => run_history::<VringMutex<dmn::Mem>>(cfg, hist, true, case),
-        _ => run_history::<VringRwLock<dmn::Mem>>(cfg, hist, true, case),
+        0 => run_history::<VringMutex<dmn::Mem>>(cfg, hist, false, z, case),
+        1 => run_history::<VringRwLock<dmn::Mem>>(cfg, hist, false, z, case),
+        2 => run_history::<VringMutex<dmn::Mem>>(cfg, hist, true, z, case),
+        _ => run_history::<VringRwLock<dmn::Mem>>(cfg, hist, true, z, case),
     }
 }
 
@@ -381,7 +406,7 @@ pub fn parse_case(s: &str) -> Option<(u64, Vec<Op>)> {
 
 pub fn run(cfg: &Cfg) {
     report::assume("reference state machine written from the statement: started by a kick descriptor / stopped by GET_VRING_BASE; enabled for all rings by SET_FEATURES without PROTOCOL_FEATURES, else by SET_VRING_ENABLE(1); disabled by SET_VRING_ENABLE(0) / RESET_DEVICE");
-    report::assume("the harness closes its copy of a replaced kick descriptor (as a frontend does); kicks are raised on the current descriptor only; SET_VRING_ENABLE is issued only while VHOST_USER_F_PROTOCOL_FEATURES is acknowledged");
+    report::assume("the harness closes its copy of a replaced kick descriptor (as a frontend does); kicks are raised on the current descriptor only; a SET_VRING_ENABLE issued while VHOST_USER_F_PROTOCOL_FEATURES is not acknowledged is refused (the daemon ends the connection) and changes nothing; the history continues on a new connection to the same daemon, whose rings keep their state");
     if let Some(o) = &cfg.only {
         if let Some((variant, hist)) = parse_case(o) {
             dispatch_history(cfg, &hist, variant, o);
@@ -408,7 +433,7 @@ pub fn run(cfg: &Cfg) {
                 continue;
             }
             let variant = idx;
-            let case = format!("{}:{}", variant % 4, h.iter().map(|i| i.to_string()).collect::<Vec<_>>().join("."));
+            let case = format!("{}:{}", variant % 8, h.iter().map(|i| i.to_string()).collect::<Vec<_>>().join("."));
             dispatch_history(cfg, &ops, variant, &case);
             if report::violations_so_far() > 12 {
                 return;
@@ -428,7 +453,7 @@ pub fn run(cfg: &Cfg) {
                 continue;
             }
             let ops: Vec<Op> = h.iter().map(|i| ALPHABET[*i]).collect();
-            let case = format!("{}:{}", idx % 4, h.iter().map(|i| i.to_string()).collect::<Vec<_>>().join("."));
+            let case = format!("{}:{}", idx % 8, h.iter().map(|i| i.to_string()).collect::<Vec<_>>().join("."));
             dispatch_history(cfg, &ops, idx, &case);
             if report::violations_so_far() > 12 {
                 return;
@@ -441,7 +466,7 @@ pub fn run(cfg: &Cfg) {
         let len = rng.range(5, 20) as usize;
         let h: Vec<usize> = (0..len).map(|_| rng.below(n as u64) as usize).collect();
         let ops: Vec<Op> = h.iter().map(|i| ALPHABET[*i]).collect();
-        let v = rng.below(4);
+        let v = rng.below(8);
         let case = format!("{v}:{}", h.iter().map(|i| i.to_string()).collect::<Vec<_>>().join("."));
         dispatch_history(cfg, &ops, v, &case);
         if report::violations_so_far() > 12 {
